@@ -1,5 +1,5 @@
 (* Proofs about Model/Escape.v: every reader specification inverts the corresponding writer. *)
-From LedgerV Require Import Base.Prelude Gen.CsvFormat Model.Escape.
+From LedgerV Require Import Base.Prelude Gen.CsvFormat Gen.PayeeRule Model.Escape.
 Local Open Scope Z_scope.
 
 (* ------------------------------------------------------------------------------------------ *)
@@ -798,15 +798,146 @@ Qed.
 Definition xml_payee (x : xact) (p : post) : str :=
   if is_nil (payee_from_tag x p) then x_payee x else payee_from_tag x p.
 
-Lemma xml_payee_no_later_tags x p : p_meta_later p = [] -> xml_payee x p = post_payee x p.
+(* --- keys equal up to case --- *)
+Lemma ci_eq_iff a : forall b, ci_compare a b = Eq <-> map lower a = map lower b.
 Proof.
-  intros H. unfold xml_payee, post_payee, payee_from_tag, payee_at_parse. rewrite H, app_nil_r.
-  destruct (is_nil (payee_tag (build_meta (p_meta_inline p)) (build_meta (x_meta x)))); reflexivity.
+  induction a as [|x a IH]; intros [|y b]; cbn [ci_compare map]; split; intros H;
+    try reflexivity; try discriminate.
+  - destruct (Z.compare_spec (lower x) (lower y)) as [E|E|E]; try discriminate.
+    rewrite E. f_equal. apply IH, H.
+  - injection H as H1 H2. rewrite H1, Z.compare_refl. apply IH, H2.
 Qed.
 
-Lemma xml_payee_no_parse_time_payee x p : payee_at_parse x p = [] -> xml_payee x p = post_payee x p.
-Proof. intros H. unfold xml_payee, post_payee. rewrite H. reflexivity. Qed.
+Lemma ci_eq_trans a b c : ci_compare a b = Eq -> ci_compare b c = Eq -> ci_compare a c = Eq.
+Proof. rewrite !ci_eq_iff. congruence. Qed.
 
-Lemma header_payee_without_tags x p :
-  payee_at_parse x p = [] -> payee_from_tag x p = [] -> post_payee x p = x_payee x.
-Proof. intros H1 H2. unfold post_payee. rewrite H1, H2. reflexivity. Qed.
+Lemma ci_eq_sym a b : ci_compare a b = Eq -> ci_compare b a = Eq.
+Proof. rewrite !ci_eq_iff. congruence. Qed.
+
+Lemma find_insert_same key k v m :
+  ci_compare key k = Eq -> meta_find key (meta_insert true k v m) = Some v.
+Proof.
+  intros Hk. induction m as [|[k0 w] m IH]; cbn [meta_insert meta_find].
+  - rewrite Hk. reflexivity.
+  - destruct (ci_compare k k0) eqn:E; cbn [meta_find].
+    + rewrite (ci_eq_trans _ _ _ Hk E). reflexivity.
+    + rewrite Hk. reflexivity.
+    + destruct (ci_compare key k0) eqn:E0; try exact IH.
+      rewrite (ci_eq_trans _ _ _ (ci_eq_sym _ _ Hk) E0) in E. discriminate.
+Qed.
+
+Lemma find_insert_other key ow k v m :
+  ci_compare key k <> Eq -> meta_find key (meta_insert ow k v m) = meta_find key m.
+Proof.
+  intros Hk. induction m as [|[k0 w] m IH]; cbn [meta_insert meta_find].
+  - destruct (ci_compare key k); [contradiction|reflexivity|reflexivity].
+  - destruct (ci_compare k k0) eqn:E.
+    + assert (Hn : ci_compare key k0 <> Eq).
+      { intros H0. apply Hk. apply (ci_eq_trans _ _ _ H0 (ci_eq_sym _ _ E)). }
+      destruct ow; cbn [meta_find]; destruct (ci_compare key k0); try contradiction; reflexivity.
+    + cbn [meta_find]. destruct (ci_compare key k); [contradiction|reflexivity|reflexivity].
+    + cbn [meta_find]. destruct (ci_compare key k0); try reflexivity; exact IH.
+Qed.
+
+(* every Payee tag on the note lines after the posting carries a non-empty value and is set with
+   overwrite_existing (as parse_xact does for trailing notes): no bare :Payee: tag, no `Payee:`
+   without a value *)
+Definition later_payee_valued (p : post) : Prop :=
+  forall e, In e (p_meta_later p) -> ci_compare k_Payee (snd (fst e)) = Eq ->
+            fst (fst e) = true /\ exists c v, snd e = Some (c :: v).
+
+Definition meta_step (m : metamap) (e : mentry) : metamap :=
+  meta_insert (fst (fst e)) (snd (fst e)) (norm_value (snd e)) m.
+
+Lemma payee_steps_follow xm later : forall pm cur,
+  (forall e, In e later -> ci_compare k_Payee (snd (fst e)) = Eq ->
+             fst (fst e) = true /\ exists c v, snd e = Some (c :: v)) ->
+  cur = payee_tag pm xm ->
+  payee_steps xm pm cur later = payee_tag (fold_left meta_step later pm) xm.
+Proof.
+  induction later as [|e later IH]; intros pm cur Hv Hcur; [exact Hcur|].
+  cbn [payee_steps fold_left]. fold (meta_step pm e).
+  apply IH; [intros e' Hin; apply Hv; right; exact Hin|].
+  pose proof (Hv e (or_introl eq_refl)) as He.
+  destruct e as [[ow k] val]. unfold meta_step. cbn [fst snd] in *.
+  destruct (ci_compare k_Payee k) eqn:E.
+  - destruct (He eq_refl) as [How [c [v Hval]]]. subst ow val.
+    assert (Hafter : payee_tag (meta_insert true k (norm_value (Some (c :: v))) pm) xm = c :: v).
+    { unfold payee_tag. cbn [norm_value]. rewrite (find_insert_same _ _ _ _ E). reflexivity. }
+    rewrite Hafter. cbn [is_nil negb andb].
+    destruct (str_eqb (c :: v) (payee_tag pm xm)) eqn:Eq1; cbn [negb]; [|reflexivity].
+    apply str_eqb_spec in Eq1. rewrite Hcur, <- Eq1. reflexivity.
+  - assert (Hsame : payee_tag (meta_insert ow k (norm_value val) pm) xm = payee_tag pm xm).
+    { unfold payee_tag. rewrite find_insert_other by (rewrite E; discriminate). reflexivity. }
+    rewrite Hsame, str_eqb_refl. cbn [negb]. rewrite andb_false_r. exact Hcur.
+  - assert (Hsame : payee_tag (meta_insert ow k (norm_value val) pm) xm = payee_tag pm xm).
+    { unfold payee_tag. rewrite find_insert_other by (rewrite E; discriminate). reflexivity. }
+    rewrite Hsame, str_eqb_refl. cbn [negb]. rewrite andb_false_r. exact Hcur.
+Qed.
+
+Lemma payee_stored_follows x p :
+  later_payee_valued p -> payee_stored PayeeFollowsLaterTags x p = payee_from_tag x p.
+Proof.
+  intros H. unfold payee_stored, payee_from_tag, payee_at_parse.
+  rewrite (payee_steps_follow _ _ _ _ H eq_refl).
+  unfold build_meta at 3. rewrite fold_left_app. reflexivity.
+Qed.
+
+(* rule PayeeFollowsLaterTags: xml and register agree *)
+Lemma xml_payee_follows x p :
+  later_payee_valued p -> xml_payee x p = post_payee_rule PayeeFollowsLaterTags x p.
+Proof.
+  intros H. unfold xml_payee, post_payee_rule. rewrite (payee_stored_follows x p H).
+  destruct (is_nil (payee_from_tag x p)); reflexivity.
+Qed.
+
+(* rule PayeeFixedAtPostingLine: they agree when the posting has no tags on later lines, or no
+   payee was fixed when its line was read ... *)
+Lemma xml_payee_fixed_partial x p :
+  p_meta_later p = [] \/ payee_at_parse x p = [] ->
+  xml_payee x p = post_payee_rule PayeeFixedAtPostingLine x p.
+Proof.
+  unfold xml_payee, post_payee_rule, payee_stored. intros [H|H].
+  - unfold payee_from_tag, payee_at_parse. rewrite H, app_nil_r.
+    destruct (is_nil (payee_tag (build_meta (p_meta_inline p)) (build_meta (x_meta x)))); reflexivity.
+  - rewrite H. reflexivity.
+Qed.
+
+(* ... and not otherwise.  Witness: header payee H, transaction tag Payee: X, one posting whose
+   NEXT line says Payee: Y *)
+Definition pw_entry (v : str) : mentry := (true, k_Payee, Some v).
+Definition pw_post : post :=
+  mkPost 3 0 0 [65] (mkAmt [36; 49] [80] (Some [36]) [49]) None None [] [pw_entry [89]].
+Definition pw_xact : xact := mkXact 1 2020 1 2 0 None [72] None [pw_entry [88]] [pw_post].
+
+Lemma xml_payee_fixed_refuted :
+  exists x p, In p (x_posts x) /\ xml_payee x p <> post_payee_rule PayeeFixedAtPostingLine x p.
+Proof. exists pw_xact, pw_post. split; [left; reflexivity|]. vm_compute. discriminate. Qed.
+
+(* the statement the current source supports *)
+Definition xml_payee_statement (r : payee_rule) : Prop :=
+  match r with
+  | PayeeFollowsLaterTags =>
+      forall x p, later_payee_valued p -> xml_payee x p = post_payee_rule PayeeFollowsLaterTags x p
+  | PayeeFixedAtPostingLine =>
+      (forall x p, p_meta_later p = [] \/ payee_at_parse x p = [] ->
+                   xml_payee x p = post_payee_rule PayeeFixedAtPostingLine x p) /\
+      (exists x p, In p (x_posts x) /\ xml_payee x p <> post_payee_rule PayeeFixedAtPostingLine x p)
+  | PayeeRuleUnrecognised => False
+  end.
+
+Lemma xml_payee_statement_holds r : r <> PayeeRuleUnrecognised -> xml_payee_statement r.
+Proof.
+  destruct r; intros H; cbn [xml_payee_statement].
+  - split; [exact xml_payee_fixed_partial|exact xml_payee_fixed_refuted].
+  - exact xml_payee_follows.
+  - contradiction.
+Qed.
+
+Lemma header_payee_without_tags r x p :
+  x_meta x = [] -> p_meta_inline p = [] -> p_meta_later p = [] -> r <> PayeeRuleUnrecognised ->
+  post_payee_rule r x p = x_payee x.
+Proof.
+  intros H1 H2 H3 Hr. unfold post_payee_rule, payee_stored, payee_from_tag, payee_at_parse.
+  rewrite H1, H2, H3. destruct r; [reflexivity|reflexivity|contradiction].
+Qed.
